@@ -28,7 +28,9 @@ for any address at any time and cancel any context.
 -/
 namespace XmppModel.Muc
 
-inductive JErr | stanzaErr | ctxErr | refused
+/-- how a call fails: the room's stanza error, the end of its context, `ErrOccupantInUse`, or anything
+else (`other`: the request could not be sent, or the reply carries no error element) -/
+inductive JErr | stanzaErr | ctxErr | refused | other
   deriving DecidableEq, Repr, Inhabited
 
 inductive JOut | ok | err (e : JErr)
@@ -48,8 +50,26 @@ inductive Child
   | mucOther                          -- <x xmlns='…muc#user'> without an invite (decline, status)
   deriving DecidableEq, Repr, Inhabited
 
-/-- the mediated invitation payloads of a message, wherever they stand among the children -/
+/-- the mediated invitation payloads of a message, wherever they stand among the children: what the
+property's text counts -/
 def invitationsIn (cs : List Child) : Nat := (cs.filter (· == .mucInvite)).length
+
+def Child.isMucUser : Child → Bool
+  | .mucInvite | .mucOther => true
+  | _ => false
+
+def mucPayloads (cs : List Child) : List Child := cs.filter Child.isMucUser
+
+/-- what the code does: the multiplexer calls `Client.HandleMessage` once for every child the handler
+is registered for — every muc#user payload — each time with the whole message, and the handler
+decodes the message into a struct with ONE muc#user field, so the last payload wins: as many
+callbacks as there are muc#user payloads if the last one carries an invitation, none otherwise.
+Equal to `invitationsIn` on messages with at most one muc#user payload (`C18_invite_once_partial`),
+not in general (`C18_invite_once_fails`, known finding). -/
+def inviteCalls (cs : List Child) : Nat :=
+  match (mucPayloads cs).getLast? with
+  | some .mucInvite => (mucPayloads cs).length
+  | _ => 0
 
 inductive LPc | idle | waiting
   deriving DecidableEq, Repr, Inhabited
@@ -66,6 +86,7 @@ structure St where
   memberX : Nat → Bool           -- the same, but an error reply to `Leave` also ends the membership
   lastJoin : Nat → Option JOut   -- result of the last finished `Join` call
   lastLeave : Nat → Option JOut
+  lastAbort : Nat → Option JOut  -- result of the last `Join` call that gave up before it had queued its request
   upres : Nat                    -- `HandleUserPresence` invocations
   invites : Nat                  -- `HandleInvite` invocations
 
@@ -75,14 +96,19 @@ def upd {α} (f : Nat → α) (i : Nat) (v : α) : Nat → α := fun j => if j =
 def init (addr0 : Nat → Nat) : St :=
   { managed := fun _ => none, jpc := fun _ => .idle, cur := addr0, req := addr0, lpc := fun _ => .idle, joined := fun _ => false,
     depart := fun _ => false, member := fun _ => false, memberX := fun _ => false, lastJoin := fun _ => none,
-    lastLeave := fun _ => none, upres := 0, invites := 0 }
+    lastLeave := fun _ => none, lastAbort := fun _ => none, upres := 0, invites := 0 }
 
 inductive Act
   | joinStart (c a : Nat)    -- `Join` of channel `c` asking for occupant address `a`
   | joinError (c : Nat) | joinCancel (c : Nat) | joinCleanup (c : Nat)
+  | joinFail (c : Nat)       -- the request of the pending `Join` could not be sent / the reply has no error element
+  | joinAbort (c a : Nat)    -- a (further) `Join` call of channel `c` asking for `a` whose context is over before
+                             -- its hand-off request is queued (the slot is taken by a pending call, or the
+                             -- `select` chose the context): it returns at once
   | avail (a : Nat)          -- available presence with a muc#user payload from occupant address `a`
   | unavail (a : Nat)        -- unavailable presence … from `a`
   | leaveStart (c : Nat) | leaveDepart (c : Nat) | leaveError (c : Nat) | leaveCancel (c : Nat)
+  | leaveFail (c : Nat)      -- the leave request could not be sent / the reply has no error element
   | message (children : List Child)  -- a message stanza with these children, in this order
   | unrelated                -- any stanza the MUC handlers are not registered for
   deriving DecidableEq, Repr
@@ -107,6 +133,17 @@ def step (s : St) : Act → Option St
   | .joinCancel c => match s.jpc c with
     | .pending => some { s with jpc := upd s.jpc c (.failing .ctxErr) }
     | _ => none
+  | .joinFail c => match s.jpc c with
+    | .pending => some { s with jpc := upd s.jpc c (.failing .other) }
+    | _ => none
+  | .joinAbort c a =>
+    -- `JoinPresence` up to its first `select`: refused if another channel is registered under `a`;
+    -- otherwise the registration is made, `depart` emptied, the context wins the `select` and the
+    -- registration is taken back if (and only if) this call made it: `managed` is as before
+    if s.managed a ≠ none ∧ s.managed a ≠ some c then
+      some { s with lastAbort := upd s.lastAbort c (some (.err .refused)) }
+    else
+      some { s with depart := upd s.depart c false, lastAbort := upd s.lastAbort c (some (.err .ctxErr)) }
   | .joinCleanup c => match s.jpc c with
     | .failing e => some { s with jpc := upd s.jpc c .idle, lastJoin := upd s.lastJoin c (some (.err e)),
                                   managed := if s.managed (s.req c) = some c ∧ ¬ (s.joined c = true ∧ s.cur c = s.req c)
@@ -150,7 +187,10 @@ def step (s : St) : Act → Option St
   | .leaveCancel c => match s.lpc c with
     | .waiting => some { s with lpc := upd s.lpc c .idle, lastLeave := upd s.lastLeave c (some (.err .ctxErr)) }
     | _ => none
-  | .message cs => some { s with invites := s.invites + invitationsIn cs }
+  | .leaveFail c => match s.lpc c with
+    | .waiting => some { s with lpc := upd s.lpc c .idle, lastLeave := upd s.lastLeave c (some (.err .other)) }
+    | _ => none
+  | .message cs => some { s with invites := s.invites + inviteCalls cs }
   | .unrelated => some s
 
 def run : St → List Act → Option St
@@ -162,8 +202,8 @@ def run : St → List Act → Option St
 /-- the channel whose *call* (`Join` / `Leave` and their outcomes) an action belongs to; presences,
 messages and unrelated stanzas are the room's -/
 def Act.callOf : Act → Option Nat
-  | .joinStart c _ | .joinError c | .joinCancel c | .joinCleanup c => some c
-  | .leaveStart c | .leaveDepart c | .leaveError c | .leaveCancel c => some c
+  | .joinStart c _ | .joinError c | .joinCancel c | .joinCleanup c | .joinFail c | .joinAbort c _ => some c
+  | .leaveStart c | .leaveDepart c | .leaveError c | .leaveCancel c | .leaveFail c => some c
   | _ => none
 
 /-! ### The muc#user payload of a presence (`muc/types.go`)
@@ -280,6 +320,10 @@ def replyChildren (cs : List Nat) : List RChild := cs.filterMap fun i => replyUn
 it is not a refusal (the call ends with a plain error and — for `Leave` — nothing is cleaned up) -/
 def replyAct (leave : Bool) (c : Nat) (cs : List RChild) : Option Act :=
   if (findError cs).isSome then some (if leave then .leaveError c else .joinError c) else none
+
+def Act.isJoinStartOf (c : Nat) : Act → Bool
+  | .joinStart c' _ => c' == c
+  | _ => false
 
 inductive Reach (addr0 : Nat → Nat) : St → Prop
   | init : Reach addr0 (init addr0)
